@@ -132,6 +132,8 @@ def check_c03(tier):
              kinds=("del_node", "del_edge", "add_edge", "add_node", "swap")),
         dict(name="seg-bfs", worlds=["seg-2d"] if q else ["seg-2d", "seg-3d"], seeds=HAND_SEEDS, depth=1 if q else 2,
              kinds=("del_node", "del_edge", "add_edge", "add_node", "swap", "paint")),
+        dict(name="nested-divisions", worlds=["noseg-2d", "seg-2d"], seeds=["nested"], depth=1 if q else 2,
+             kinds=("del_node", "del_edge", "add_edge", "add_node", "swap"), max_states=None if q else 1500),
     ]
     res = run_e1("C03", tier, stages, dict(undo_probe=True), time_budget=budget(tier, 300, 1500))
     return with_history_invariants("C03", tier, res)
@@ -225,6 +227,8 @@ def check_c01(tier):
              seeds=NOSEG_SEEDS, depth=1 if q else 2, kinds=kinds),
         dict(name="big-ids", worlds=["noseg-2d-bigids", "seg-2d-bigids"], seeds=["bigdiv"], depth=1 if q else 2, kinds=kinds + ("paint",)),
         dict(name="forests", worlds=["noseg-2d"], seeds=forests_seeds(4 if q else 5, 3 if q else 4), depth=1, kinds=kinds),
+        dict(name="nested-divisions", worlds=["noseg-2d", "seg-2d"], seeds=["nested"], depth=1 if q else 2,
+             kinds=kinds + ("paint",), max_states=None if q else 1500),
         dict(name="seg-bfs", worlds=["seg-2d", "seg-2d-aniso"] if q else ["seg-2d", "seg-2d-aniso", "seg-2d-all", "seg-3d", "seg-3d-aniso", "seg-2d-fd"],
              seeds=HAND_SEEDS + ["twodiv"], depth=1 if q else 2, kinds=kinds + ("paint",)),
     ]
